@@ -31,11 +31,11 @@ CLAIMED = {
    technique="deterministic simulation with message-fault enumeration between prover and two verifier nodes"),
  "C04": dict(level="fault_enumeration", ref="DESIGN §5 C04",
    text="Byzantine prover at matrix depth through hook H2: after an honest run every cell of every active row (and one padding row) of every primitive table is altered, or an operand is altered and the row re-solved locally, or rows are swapped, or a constant is substituted and propagated; the real prover commits and proves the forged matrices and the commitment-binding verifier decides. Ground truth (operation relations over the extension field, constants, agreement of all bus participants) is computed per case; accepted and invalid is a violation. Fault-free control arm first.",
-   note="Primitive tables (Const, Public, ALU incl. single-step and packed HornerAcc rows decoded from the ALU preprocessed matrix); non-primitive tables are faulted through C06/C12. Seven universes (KB/BB D4, BB binomial D5, KB quintic D5, KB D8, KB D1, Goldilocks D2). Horner-specific forges: chain restarted from a forged accumulator, packed row out forged with intermediates solved backwards. Release profile so that p3's debug constraint checks do not pre-empt the prover. Known findings (unconstrained Const values) listed in known_findings.json.",
+   note="Primitive tables (Const, Public, ALU incl. single-step and packed HornerAcc rows decoded from the ALU preprocessed matrix); non-primitive tables: single-cell faults on the committed Poseidon2 / recompose tables of Merkle-opening circuits (arity 2, arity 4, raw add_poseidon2_perm paths) with verdicts expected from the documented row layout, plus direction-input flips and path transplants. Eight universes (KB/BB D4, BB binomial D5, KB quintic D5, KB D8, KB D1, Goldilocks D2). Horner-specific forges: chain restarted from a forged accumulator, packed row out forged with intermediates solved backwards. Release profile so that p3's debug constraint checks do not pre-empt the prover. Known findings (unconstrained Const values; arity-2 Merkle rows tied to nothing but the root) listed in known_findings.json.",
    technique="deterministic simulation with a byzantine prover: exhaustive single-cell faults on committed matrices, real prove + verify, computed ground truth"),
  "C11": dict(level="fault_enumeration", ref="DESIGN §5 C11",
    text="Table-local half of C04 at the constraint level: the same cell faults on matrices captured from the real prover are evaluated with p3's DebugConstraintBuilder against each table's AIR (no proof), and compared with an independent row-relation evaluator that multiplies in the real extension field; relation fails and constraints vanish, or an honest row fails constraints, is a violation.",
-   note="Const/Public/ALU (add, mul, bool, mul_add, Horner single-step and packed arities 2..K) tables in seven universes (binomial D2/D4/D5/D8, quintic trinomial, base field) with lane and Horner-K swarm; Poseidon/recompose tables not decoded by the oracle. BoolCheck's out = a tie is a bus matter and checked end to end in C04.",
+   note="Const/Public/ALU (add, mul, bool, mul_add, Horner single-step and packed arities 2..K) tables in seven universes (binomial D2/D4/D5/D8, quintic trinomial, base field) with lane and Horner-K swarm; Poseidon2 / recompose table rows are covered end to end (prove + verify) by the row-level faults of the NPO arm on a thin sample of runs. BoolCheck's out = a tie is a bus matter and checked end to end in C04.",
    technique="deterministic simulation: exhaustive cell-fault enumeration on prover matrices with a constraint-level observer and relation oracle"),
  "C07": dict(level="fault_enumeration", ref="DESIGN §5 C07",
    text="Same prover -> transport -> {native, in-circuit} simulation as C01 with the fault space focused on what FRI consumes (commitments, claimed evaluations, the whole opening proof incl. per-step log_arity) and all five fault kinds on every such leaf, over a FRI-oriented shape swarm: mixed matrix heights down to single-row tables, arity schedules up to 2^4 incl. mixed, blow-up 1-3, final polynomial length 1-4, 1-3 queries, PoW bits 0-8, cap height 0-2.",
